@@ -18,7 +18,7 @@ use eyre::WrapErr;
 
 use crate::{
     component::ExecResult,
-    components::{initialization, mutation, replacement, selection},
+    components::{boundary, initialization, mutation, replacement, selection, utils},
     conditions::Condition,
     configuration::Configuration,
     heuristics::ls,
@@ -45,7 +45,11 @@ where
     P: SingleObjectiveProblem + LimitedVectorProblem<Element = f64>,
 {
     let RealProblemParameters {
-        ls_params,
+        ls_params:
+            ls::RealProblemParameters {
+                n_neighbors,
+                deviation,
+            },
         ls_condition,
     } = params;
 
@@ -56,9 +60,16 @@ where
         .do_(ils::<P, Global>(
             Parameters {
                 perturbation: mutation::PartialRandomSpread::new_full(),
-                ls: ls::real_ls::<P>(ls_params, ls_condition)
-                    .wrap_err("failed to construct local search")?
-                    .into_inner(),
+                // Only the search loop: the scoped local search continues from the perturbed
+                // solution and must not bring its own initialization along.
+                ls: ls::ls::<P, Global>(
+                    ls::Parameters {
+                        num_neighbors: n_neighbors,
+                        neighbors: mutation::NormalMutation::new_dev(deviation),
+                        constraints: boundary::Saturation::new(),
+                    },
+                    ls_condition,
+                ),
             },
             condition,
         ))
@@ -82,7 +93,11 @@ where
     P: SingleObjectiveProblem + VectorProblem<Element = usize>,
 {
     let PermutationProblemParameters {
-        ls_params,
+        ls_params:
+            ls::PermutationProblemParameters {
+                num_neighbors,
+                num_swap,
+            },
         ls_condition,
     } = params;
 
@@ -93,9 +108,17 @@ where
         .do_(ils::<P, Global>(
             Parameters {
                 perturbation: <mutation::ScrambleMutation>::new_full(),
-                ls: ls::permutation_ls::<P>(ls_params, ls_condition)
-                    .wrap_err("failed to construct local search")?
-                    .into_inner(),
+                // Only the search loop: the scoped local search continues from the perturbed
+                // solution and must not bring its own initialization along.
+                ls: ls::ls::<P, Global>(
+                    ls::Parameters {
+                        num_neighbors,
+                        neighbors: mutation::SwapMutation::new(num_swap)
+                            .wrap_err("failed to construct local search")?,
+                        constraints: utils::Noop::new(),
+                    },
+                    ls_condition,
+                ),
             },
             condition,
         ))
